@@ -3,6 +3,7 @@
 package main
 
 import (
+	"fmt"
 	"io"
 
 	"github.com/rs/zerolog"
@@ -18,4 +19,15 @@ func c17extra(s *c17state, in []byte) {
 	if s.calls%8 == 0 {
 		s.guard("journald.Write", in, false, func() error { c17journald.Write(in); return nil })
 	}
+}
+
+// c17cut: a partial event handed to ConsoleWriter (which decodes it first) must be reported as an error, like
+// everywhere else; k is a cut point strictly inside the single event ev.
+func c17cut(s *c17state, ev []byte, k int) {
+	var werr error
+	s.guard("ConsoleWriter.Write(partial event)", ev[:k], false, func() error { _, werr = c17console.Write(ev[:k]); return nil })
+	if werr == nil {
+		s.out.Violate("cut-partial-no-error:ConsoleWriter", fmt.Sprintf("the first %d of the %d bytes of one event were handed to ConsoleWriter.Write: no error was returned", k, len(ev)), s.rep())
+	}
+	s.out.Count("console_partial_event_writes", 1)
 }
